@@ -2,6 +2,7 @@ package main
 
 import (
 	"fmt"
+	"go/token"
 	"go/types"
 	"sort"
 	"strings"
@@ -723,4 +724,60 @@ func (x *Exec) checkGuard(st *State, p *Ptr, write bool) {
 			x.oblige(st, "guard", "", what+" of "+fname+" without "+g.Lock, or(sel(x.use(lk), p.Ref), "(> "+p.Ref+" "+x.top0+")"), x.curPos)
 		}
 	}
+}
+
+// ---- fresh-only writes ----
+//
+// `freshwrites <components>` (function level) and `loop n freshwrites <components>` declare that the
+// listed components are written only inside objects allocated after the function was entered.
+// Every write to such a component gets the obligation ref > top0; in exchange, wherever the
+// component is forgotten (loop havoc here, call havoc at callers) objects that existed before keep
+// their contents.
+
+func (x *Exec) freshCheck(st *State, key string, ref string, pos token.Pos) {
+	if x.spec > 0 || x.isFreshRef(ref) {
+		return
+	}
+	if x.freshActive(key) {
+		x.oblige(st, "frame", "", "write to "+compShort(key)+" of an object that existed before the call", "(> "+ref+" "+x.top0+")", pos)
+	}
+}
+
+func compShort(key string) string {
+	parts := strings.Split(key, "|")
+	if len(parts) == 3 {
+		t := parts[1]
+		if i := strings.LastIndex(t, "."); i >= 0 {
+			t = t[i+1:]
+		}
+		return parts[0] + ":" + t + parts[2]
+	}
+	return key
+}
+
+func (x *Exec) freshActive(key string) bool {
+	if x.rootFresh[key] {
+		return true
+	}
+	for li, m := range x.loopFresh {
+		if m[key] && x.curBlock != nil && li.body[x.curBlock] {
+			return true
+		}
+	}
+	return false
+}
+
+// frameOld: objects with reference <= top keep their contents between components before and after.
+func (x *Exec) frameOld(before, after *HeapSym, top string) {
+	x.sc.emit("(assert (forall ((r Int)) (! (=> (<= r %s) (= (select %s r) (select %s r))) :pattern ((select %s r)))))", top, x.use(after), x.use(before), x.use(after))
+}
+
+func (x *Exec) expandKeys(items []string) map[string]bool {
+	out := map[string]bool{}
+	for _, it := range items {
+		for _, k := range x.modifiesKeys(it) {
+			out[k] = true
+		}
+	}
+	return out
 }
